@@ -66,6 +66,8 @@ benign("c17-benign-flip-compare", "C17", OPT, "        return target_signed and 
 benign("c17-benign-conservative-double", "C17", OPT, "ir.DataType.DOUBLE: (53, -1074, 1023)", "ir.DataType.DOUBLE: (53, -1074, 1023 + 0)")
 
 # ----------------------------------------------------------------------------- C13
+mutant("c13-inherited-attr-restored-by-setattr", "C13", "jax2onnx/plugins/_patching.py", "            if orig is _MISSING or not owned:", "            if orig is _MISSING:", expect="R-C13f")
+mutant("c13-function-patch-restore-ignores-ownership", "C13", "jax2onnx/plugins/plugin_system.py", "                    if st.get(\"owned\", True):\n                        setattr(tgt, attr, st[\"orig\"])\n                    else:\n                        # inherited attribute: remove the override instead of\n                        # pinning a copy of the base's attribute on the subclass\n                        delattr(tgt, attr)", "                    setattr(tgt, attr, st[\"orig\"])", expect="R-C13f")
 PS = "jax2onnx/plugins/plugin_system.py"
 mutant("c13-revert-fix-loop-before-try", "C13", PS,
        """    try:
@@ -75,9 +77,10 @@ mutant("c13-revert-fix-loop-before-try", "C13", PS,
                 st = _PATCH_STATE.get(key)
                 if st is None:
                     orig = getattr(tgt, attr)
+                    owned = owns_attr(tgt, attr)
                     new = patch_fn(orig)
                     setattr(tgt, attr, new)
-                    _PATCH_STATE[key] = {"orig": orig, "count": 1}
+                    _PATCH_STATE[key] = {"orig": orig, "owned": owned, "count": 1}
                 else:
                     st["count"] += 1
                 touched.append(key)
@@ -89,9 +92,10 @@ mutant("c13-revert-fix-loop-before-try", "C13", PS,
             st = _PATCH_STATE.get(key)
             if st is None:
                 orig = getattr(tgt, attr)
+                owned = owns_attr(tgt, attr)
                 new = patch_fn(orig)
                 setattr(tgt, attr, new)
-                _PATCH_STATE[key] = {"orig": orig, "count": 1}
+                _PATCH_STATE[key] = {"orig": orig, "owned": owned, "count": 1}
             else:
                 st["count"] += 1
             touched.append(key)
@@ -100,7 +104,7 @@ mutant("c13-revert-fix-loop-before-try", "C13", PS,
 """, expect="apply_monkey_patches")
 mutant("c13-x64-restore-removed", "C13", "jax2onnx/converter/conversion_api.py",
        '    finally:\n        if previous != target:\n            jax.config.update("jax_enable_x64", previous)', "    finally:\n        pass", expect="jax_enable_x64")
-mutant("c13-restore-forward-order", "C13", "jax2onnx/plugins/_patching.py", "for tgt, attr, orig in reversed(applied):", "for tgt, attr, orig in applied:", expect="restore-order")
+mutant("c13-restore-forward-order", "C13", "jax2onnx/plugins/_patching.py", "for tgt, attr, orig, owned in reversed(applied):", "for tgt, attr, orig, owned in applied:", expect="restore-order")
 mutant("c13-function-build-flag-not-reset", "C13", PS, "            finally:\n                _IN_FUNCTION_BUILD.set(active)", "            finally:\n                pass", expect="_IN_FUNCTION_BUILD")
 mutant("c13-module-level-library-write", "C13", "jax2onnx/plugins/jax/numpy/abs.py", "import jax.numpy as jnp\n", "import jax.numpy as jnp\n\njnp.fabs_compat = jnp.abs\n", expect="jnp.fabs_compat")
 mutant("c13-binding-entered-manually", "C13", PS, "        with apply_patches(cls.binding_specs()):\n            yield", "        cm = apply_patches(cls.binding_specs())\n        cm.__enter__()\n        yield", expect="apply_patches")
@@ -229,7 +233,7 @@ mutant("c15-web-stale-sidecar-kept", "C15", UIF, "            try:\n            
 mutant("c15-sidecar-fixed-name", "C15", UIF, '        data_location = os.path.basename(dest) + ".data"', '        data_location = "model.data"', expect="standard-sidecar-location")
 multi("c15-spill-decided-before-save", "C15", "mutant", [(UIF, "        onnx.save_model(\n            model_proto,\n            dest,\n            save_as_external_data=True,", "        spills = any(len(init.raw_data) >= external_threshold for init in model_proto.graph.initializer)\n        onnx.save_model(\n            model_proto,\n            dest,\n            save_as_external_data=True,"), (UIF, "        if not any(init.external_data for init in model_proto.graph.initializer):", "        if not spills:")], expect="standard-sidecar-removal")
 mutant("c15-sidecar-removed-unconditionally", "C15", UIF, "        if not any(init.external_data for init in model_proto.graph.initializer):\n", "        if True:\n", expect="standard-sidecar-removal")
-benign("c15-benign-remove-nonempty-unreferenced", "C15", UIF, "                if os.path.exists(data_path) and os.path.getsize(data_path) == 0:", "                if os.path.exists(data_path):")
+mutant("c15-remove-nonempty-sidecar-top-level-test-only", "C15", UIF, "                if os.path.exists(data_path) and os.path.getsize(data_path) == 0:", "                if os.path.exists(data_path):", expect="standard-sidecar-removal")
 benign("c15-benign-external-flag-after-save", "C15", UIF, "        if not any(init.external_data for init in model_proto.graph.initializer):\n", "        references_sidecar = any(init.external_data for init in model_proto.graph.initializer)\n        if not references_sidecar:\n")
 benign("c15-benign-dispatch-order", "C15", UIF, "    model_proto = ir.to_proto(result)\n    if normalized_mode == \"file\":", "    model_proto = ir.to_proto(result)\n    if \"file\" == normalized_mode:")
 
@@ -259,6 +263,8 @@ mutant("c12-all-outputs-bridged", "C12", CAF, "            if index in nchw_outp
 benign("c12-benign-perm-as-list", "C12", CAF, "            perm=list(_NCHW_TO_NHWC_PERM),", "            perm=[int(p) for p in _NCHW_TO_NHWC_PERM],")
 
 # ----------------------------------------------------------------------------- C07
+mutant("c07-key-erases-symbolic-dims", "C07", PS, "            shape = tuple(getattr(aval, \"shape\", ()))\n            dtype = getattr(aval, \"dtype\", None)\n            in_sigs.append((shape, str(dtype)))", "            shape = tuple(int(d) if isinstance(d, (int, np.integer)) else \"?\" for d in getattr(aval, \"shape\", ()))\n            dtype = getattr(aval, \"dtype\", None)\n            in_sigs.append((shape, str(dtype)))", expect="input-signature")
+benign("c07-benign-key-dims-as-repr", "C07", PS, "            shape = tuple(getattr(aval, \"shape\", ()))\n            dtype = getattr(aval, \"dtype\", None)\n            in_sigs.append((shape, str(dtype)))", "            shape = tuple(repr(d) for d in getattr(aval, \"shape\", ()))\n            dtype = getattr(aval, \"dtype\", None)\n            in_sigs.append((shape, str(dtype)))")
 mutant("c07-capture-items-sorted-before-key", "C07", PS, "        param_values = [entry[\"ir_value\"] for entry in dynamic_entries]\n", "        param_values = [entry[\"ir_value\"] for entry in dynamic_entries]\n        capture_items.sort(key=lambda item: item[0])\n", expect="R-C07e")
 mutant("c07-key-sorted-captures", "C07", PS, "            capture_sig = (id(callee), tuple(capture_items))", "            capture_sig = (id(callee), tuple(sorted(capture_items)))", expect="R-C07e")
 mutant("c07-unique-key-frozenset-captures", "C07", PS, '            ("captures", tuple(capture_items)),', '            ("captures", frozenset(capture_items)),', expect="R-C07e")
@@ -287,6 +293,7 @@ mutant("c04-scope-per-symbol", "C04", CAF, "        syms = jax_export.symbolic_s
 benign("c04-benign-tag-rename", "C04", LDF, 'key = f"coeff_term:{term}"', 'key = f"term_with_coefficient:{term}"')
 
 # ----------------------------------------------------------------------------- C06
+multi("c06-scan-trip-count-from-scatter-extent", "C06", "mutant", [("jax2onnx/plugins/jax/lax/scan.py", "        if trip_count_int is not None:\n            trip_count_val = _scalar_i64(ctx, trip_count_int, \"scan_trip_count\")\n        else:\n            first_seq_val = ctx.get_value_for_var(seq_invars[0])\n            shape_val = _shape_of(ctx, first_seq_val, \"scan_seq_shape\")\n            trip_count_val = _gather_int_scalar(ctx, shape_val, 0, \"scan_trip_dynamic\")", "        if scatter_static_extent is None:\n            if trip_count_int is not None:\n                trip_count_val = _scalar_i64(ctx, trip_count_int, \"scan_trip_count\")\n            else:\n                first_seq_val = ctx.get_value_for_var(seq_invars[0])\n                shape_val = _shape_of(ctx, first_seq_val, \"scan_seq_shape\")\n                trip_count_val = _gather_int_scalar(ctx, shape_val, 0, \"scan_trip_dynamic\")")], expect="trip-count")
 LAXD = "jax2onnx/plugins/jax/lax/"
 mutant("c06-cond-branches-swapped-at-unpack", "C06", LAXD + "cond.py", '        false_closed, true_closed = params["branches"]', '        true_closed, false_closed = params["branches"]', expect="then-else")
 mutant("c06-cond-then-else-swapped", "C06", LAXD + "cond.py", "            then_branch=then_graph,\n            else_branch=else_graph,", "            then_branch=else_graph,\n            else_branch=then_graph,", expect="then-else")
@@ -336,6 +343,11 @@ mutant("c08-shape-from-elsewhere", "C08", PPF, "            output.shape = unkno
 mutant("c08-refresh-backward-chain", "C08", OPT, "                for node in allowed_fwd:\n                    _refresh_elementwise_output_shape(node)", "                for node in allowed_nodes:\n                    _refresh_elementwise_output_shape(node)", expect="refresh-order")
 mutant("c08-refresh-set-order", "C08", OPT, "            for node in nodes:\n                if node in elem_nodes:\n                    _refresh_elementwise_output_shape(node)\n\n            # Remove inverse transposes on outputs of the DAG.", "            for node in elem_nodes:\n                _refresh_elementwise_output_shape(node)\n\n            # Remove inverse transposes on outputs of the DAG.", expect="refresh-order")
 benign("c08-benign-refresh-reversed-inline", "C08", OPT, "                for node in allowed_fwd:\n                    _refresh_elementwise_output_shape(node)", "                for node in reversed(allowed_nodes):\n                    _refresh_elementwise_output_shape(node)")
+mutant("c08-refresh-copies-dtype-through-cast", "C08", OPT, "    if node.op_type in {\"Cast\", \"CastLike\", \"Not\"}:\n        # These ops can change dtype; keep existing dtype metadata untouched.\n        _copy_shape_only(outs[0], src)\n    else:\n        _copy_shape_dtype(outs[0], src)", "    _copy_shape_dtype(outs[0], src)", expect="R-C08d")
+mutant("c08-unary-dataflow-set-gains-comparison", "C08", OPT, "UNARY_DATAFLOW_OPS: Set[str] = {\n    \"Gelu\",", "UNARY_DATAFLOW_OPS: Set[str] = {\n    \"IsNaN\",\n    \"Gelu\",", expect="R-C08d")
+mutant("c08-shape-key-forgets-symbol-names", "C08", OPT, "            key.append(f\"repr:{repr(d)}\")", "            key.append(\"sym\" if getattr(d, \"value\", None) is not None else \"?\")", expect="R-C08e")
+benign("c08-benign-shape-key-by-value-name", "C08", OPT, "            key.append(f\"repr:{repr(d)}\")", "            key.append(f\"sym:{getattr(d, 'value', None)!r}:{repr(d)}\")")
+benign("c08-benign-refresh-not-excluded-explicitly", "C08", OPT, "    if node.op_type in {\"Cast\", \"CastLike\", \"Not\"}:\n        # These ops can change dtype", "    if node.op_type in {\"Cast\", \"CastLike\"}:\n        # These ops can change dtype")
 benign("c08-benign-guard-split", "C08", PPF, "            name = _value_name(output)\n            if name and name in io_names:\n                continue\n", "            name = _value_name(output)\n            if name:\n                if name in io_names:\n                    continue\n")
 mutant("c11-attribute-through-helper-mapping", "C11", "jax2onnx/plugins/flax/nnx/elu.py", 'attrs["alpha"] = float(alpha)', 'attrs["slope"] = float(alpha)', expect="slope")
 mutant("c02-swish-operands-not-compared", "C02", OPT, "        if isinstance(sigmoid_input, ir.Value) and _same_value(\n            sigmoid_input, passthrough\n        ):", "        if isinstance(sigmoid_input, ir.Value):", expect="_same_value")
@@ -353,6 +365,6 @@ benign("c02-benign-inverse-perm-rewritten", "C02", OPT, "    composed = [perm1[p
 mutant("c12-range-check-weakened-by-conjunction", "C12", CAF, "        if idx < 0 or idx >= upper_bound:", "        if idx < 0 or (idx >= upper_bound and upper_bound > 1):", expect="out-of-range")
 mutant("c05-uniqueness-check-weakened-by-conjunction", "C05", UIF, "    if len(set(targets)) != len(targets):", "    if len(set(targets)) != len(targets) and output_names is not None:", expect="unique-targets")
 mutant("c06-missing-jaxpr-check-weakened", "C06", LAXD + "while_loop.py", "        if cond_cj is None or body_cj is None:", "        if cond_cj is None and body_cj is None:", expect="missing-jaxprs")
-mutant("c13-original-read-after-write", "C13", "jax2onnx/plugins/_patching.py", "            orig = getattr(tgt, s.attr, _MISSING)\n            if isinstance(s, AssignSpec):\n                setattr(tgt, s.attr, s.value)", "            if isinstance(s, AssignSpec):\n                setattr(tgt, s.attr, s.value)\n            orig = getattr(tgt, s.attr, _MISSING)\n            if isinstance(s, AssignSpec):\n                pass", expect="R-C13e")
+mutant("c13-original-read-after-write", "C13", "jax2onnx/plugins/_patching.py", "            orig = getattr(tgt, s.attr, _MISSING)\n            owned = orig is not _MISSING and owns_attr(tgt, s.attr)\n            if isinstance(s, AssignSpec):\n                setattr(tgt, s.attr, s.value)", "            if isinstance(s, AssignSpec):\n                setattr(tgt, s.attr, s.value)\n            orig = getattr(tgt, s.attr, _MISSING)\n            owned = orig is not _MISSING and owns_attr(tgt, s.attr)\n            if isinstance(s, AssignSpec):\n                pass", expect="R-C13e")
 mutant("c13-restore-writes-wrong-value", "C13", "jax2onnx/plugins/_patching.py", "                setattr(tgt, attr, orig)", "                setattr(tgt, attr, getattr(tgt, attr))", expect="restore-value")
 mutant("c13-refcounted-restore-wrong-value", "C13", PS, '                    setattr(tgt, attr, st["orig"])', '                    setattr(tgt, attr, st.get("new"))', expect="restore-value")
